@@ -218,7 +218,7 @@ def execute(spec, w, ctx):
             if any(x is None for x in list(wa.values()) + list(wb.values())) or canon(wa) == canon(wb):
                 continue
             out_a, res_b, before_p, after_p = genops.run_gen_pair(w, op)
-            events.append([i_op, "gen_pair", out_a["status"], res_b["status"]])
+            events.append([i_op, "gen_pair", out_a["status"], res_b["status"], res_b.get("trace")])
             pb_ = genops.pair_problem(ctx, op, out_a, res_b, before_p, after_p)
             if pb_ is not None and pb_[0] != "concurrent-run-failed":
                 # each parameter set has a file of its own only if each file holds what its own set produces
